@@ -1,13 +1,14 @@
 ---- MODULE MC_C07_selftest_poly ----
-\* Hand-written automaton of x*x*y: ambiguous (an x can belong to either loop, degree-1 polynomial
-\* ambiguity) but not exponentially: once a copy has moved to the second loop it cannot come back.
+\* Hand-written automaton of x*x*y: ambiguous (an x can belong to either loop: polynomial ambiguity)
+\* but not exponentially: once a copy has moved to the second loop it cannot come back.
 \* NoEDA must hold: the criterion does not flag polynomial ambiguity.
-EXTENDS RegexAmb
+EXTENDS Naturals
+VARIABLES a, p1, p2, dv
 MC_N == 3
 MC_K == 2
-MC_M == 5
 MC_Anchors == {1, 2}
-MC_Out == << {<<1, 1, 1>>, <<1, 2, 2>>, <<2, 3, 3>>},
-             {<<1, 2, 4>>, <<2, 3, 5>>},
-             {} >>
+MC_Out == << << {<<1, 1>>, <<2, 1>>}, {<<3, 1>>} >>,
+             << {<<2, 1>>}, {<<3, 1>>} >>,
+             << {}, {} >> >>
+INSTANCE RegexAmb WITH N <- MC_N, K <- MC_K, Out <- MC_Out, Anchors <- MC_Anchors
 ====
